@@ -22,6 +22,8 @@ def analyse_negative(ctx, want_props):
         if not any(d["prop"] in want_props for d in witnesses):
             continue
         for label in labels:
+            if m.get("only_label") not in (None, label):
+                continue  # (a crate of re-compiled witnesses belongs to the configuration it was re-compiled in)
             diags = facts.diags(cname, label)
             resolution_broken = any(x.get("code") in ("E0433", "E0412", "E0425", "E0432", "E0405") for x in diags)
             claimed = set()
@@ -29,7 +31,7 @@ def analyse_negative(ctx, want_props):
                 mine = attributed(diags, d)
                 for x in mine:
                     claimed.add(id(x))
-                if d["prop"] not in want_props or d.get("rechecked"):
+                if d["prop"] not in want_props or label in d.get("rechecked", []):
                     continue  # (rechecked witnesses get their verdict in the crate they were re-compiled in)
                 props = {d["prop"]}
                 key = "%s|%s|%s|rejected%s" % (cname, d["path"], d["clause"], "" if label == "neg" else "|" + label)
